@@ -56,7 +56,7 @@ C20Cases == {[kind |-> "ckm_w", cls |-> c] : c \in {"inside", "edge", "outside",
 C12Routines == {"fs_svd", "svd", "reorder_svd", "fs_diagonalize_hermitian", "diagonalize_hermitian",
                 "fs_diagonalize_symmetric", "reorder_diagonalize_symmetric", "diagonalize_symmetric"}
 \* allpos / allneg: definite spectra (the Hermitian / symmetric wrappers re-sort by magnitude only when signs are mixed)
-C12Patterns == {"distinct", "double", "triple", "allequal", "zero", "zero2", "negpair", "hier", "int", "zerorow", "allpos", "allneg"}
+C12Patterns == {"distinct", "double", "triple", "allequal", "zero", "zero2", "negpair", "hier", "int", "zerorow", "allpos", "allneg", "negdouble", "posdouble"}
 C12Cases == {[routine |-> r, scalar |-> sc, n |-> n, pattern |-> p, basis |-> b] :
                r \in C12Routines, sc \in {"real", "complex"}, n \in 2..4, p \in C12Patterns, b \in {"diag", "perm", "rot"}}
             \cup {[routine |-> "fs_svd_rc", scalar |-> "real", n |-> n, pattern |-> p, basis |-> b] :
